@@ -1230,8 +1230,8 @@ class Scenario(TagAndStatusStatement, Replayable):
                     step.status = Status.skipped
 
         self.clear_status()  # -- ENFORCE: compute_status() after run.
-        if not run_scenario and not self.steps:
-            # -- SPECIAL CASE: Scenario without steps.
+        if not run_scenario and not self.steps and not self.background_steps:
+            # -- SPECIAL CASE: Scenario without steps (neither own nor inherited).
             self.set_status(Status.skipped)
 
 
